@@ -179,6 +179,11 @@ def run_script(aiocoap, script, direct=False):
         res_of = {}
 
         def answer(h, hopts, resp, exc, is_open):
+            if not isinstance(resp, aiocoap.Message):
+                # what the handler returned went on the pipe as it is (seen with mutants that by-pass
+                # the rendering cache): no response at all, as far as the property goes
+                return "X|-|-|_|-", {"code": 0, "b1": None, "b2": None, "opts": [], "payload": b"", "exc": None,
+                                     "open": is_open, "observing": False, "nonmessage": type(resp).__name__}
             rp = bytes(resp.payload)
             ropts = U.opts_of(resp)
             observing = False
@@ -374,6 +379,8 @@ class Reference:
         R = (hcode, hexopts(hopts), mk_bytes(hspec))
         seen = o["seen"]
         pending = bool(o.get("pending"))
+        if not pending and o.get("nonmessage"):
+            return f"a {o['nonmessage']} object, not a message, was put on the pipe as the response"
         if not pending and o["code"] >= 160 and o["exc"] and not (seen and hexc):
             # an error the machinery produced (a 5.xx message the handler returned is judged below
             # as its rendering; an exception the handler raised as its outcome)
@@ -508,6 +515,8 @@ class Reference:
         if ctx is None:
             return ""
         hexc = ctx["hexc"]
+        if o.get("nonmessage"):
+            return f"a {o['nonmessage']} object, not a message, was put on the pipe as the response"
         if o["code"] >= 160 and o["exc"] and not hexc:
             return f"5.xx response {o['code']} ({o['exc']})"
         if ctx["kind"] == "plain":
